@@ -70,7 +70,7 @@ fn scenario() -> Scenario {
             module: 0,
             not_after: 86400 * 30,
             cert_fault: None,
-            versions: vec![Version { number: 1, this_off: -600, next_off: 86400, crl_next_off: 86400, ee_after_off: 86400, objs: vec![Obj { kind: ObjKind::Roa { extra: 1, maxlen_delta: 0, v6: false }, not_after: 86400, fault: None }], fault: None }],
+            versions: vec![Version { number: 1, this_off: -600, next_off: 86400, crl_next_off: 86400, ee_after_off: 86400, objs: vec![Obj { kind: ObjKind::Roa { extra: 1, maxlen_delta: 0, v6: false }, not_after: 86400, fault: None }], fault: None, omit_children: vec![] }],
             extra_res: None,
             ta_alt: vec![],
         }],
